@@ -21,4 +21,14 @@ theorem subst_visits_every_child :
     (CbGen.astChildVectors.all fun f => CbGen.substVectors.contains f) = true := by
   decide
 
+/-- the data members clone_ast_node deliberately does not assign: `node_type` is given to the constructor of the copy,
+    `return_types` is rebuilt by instantiate_generic_function from the substituted return type -/
+def notCloned : List String := ["node_type", "return_types"]
+
+/-- every other data member of struct ASTNode — flags, names, literal values, operator strings, dimensions … — is assigned
+    in the copy: no construct loses an attribute inside an instantiated generic body -/
+theorem clone_copies_every_field :
+    (CbGen.astAllFields.all fun f => CbGen.cloneAssigned.contains f || notCloned.contains f) = true := by
+  decide
+
 end CbOblig.C11
